@@ -302,3 +302,24 @@ Lemma lower_name_idem s : lower_name (lower_name s) = lower_name s.
 Proof. unfold lower_name. rewrite map_map. apply map_ext. apply lower_ascii_idem. Qed.
 Lemma get_all_spec items n i : In i (get_all items n) <-> In i items /\ lower_name (i_name i) = lower_name n.
 Proof. unfold get_all. rewrite filter_In. now rewrite seqb_eq. Qed.
+
+(* NO LOSS, per header: the value of every header of the document is held by whichever dict its name went to *)
+Theorem every_value_kept items i : In i items ->
+  let n := lower_name (i_name i) in
+  (exists vs, lookup n (snd (loop_result items)) = Some vs /\ In (UStr (i_val i)) vs) \/
+  (exists k v, lookup k (fst (loop_result items)) = Some v /\
+     (v = RStr (i_val i) \/ (exists l, v = RList l /\ (In (i_val i) l \/ l = parse_keywords (i_val i))) \/
+      (exists d, v = RDict d /\ In (split_url (i_val i)) d))).
+Proof.
+  intros Hi n. assert (Ln : In n (lnames items)) by (apply In_lnames; eauto).
+  assert (G : In i (get_all items n)) by (apply get_all_spec; split; auto; unfold n; now rewrite lower_name_idem).
+  assert (V : In (i_val i) (values items n)) by (unfold values; now apply in_map).
+  destruct (loop_partition items n Ln) as [[k [v [C [L _]]]]|[C [L _]]].
+  - right. exists k, v. split; auto. apply classify_spec in C as [_ [kind [_ H]]].
+    destruct H as [[_ [x [E ->]]]|[[_ ->]|[[_ [x [E ->]]]|[_ [d [P ->]]]]]].
+    + left. rewrite E in V. destruct V as [->|[]]. reflexivity.
+    + right; left. eauto.
+    + right; left. rewrite E in V. destruct V as [->|[]]. eauto.
+    + right; right. exists d. split; auto. apply parse_project_urls_spec in P as [-> _]. cbn [app]. now apply in_map.
+  - left. exists (uvalues items n). split; auto. unfold uvalues. now apply in_map.
+Qed.
